@@ -305,6 +305,75 @@ def two_writers_nested(v0: int, k: int, txn1: bool, txn2: bool, phase: bool, wit
             w.close()
 
 
+def three_writers_nested(v0: int, k: int, k2: int, txn: bool) -> bool:
+    """
+    pre: 0 <= v0 <= 1000 and 1 <= k <= 8 and 1 <= k2 <= 8
+    post: _
+    """
+    # Three writers that all read version v0: C's whole save runs before B's k2-th statement, and
+    # B's (with C inside) before A's k-th.  Exactly one save succeeds, whatever the positions.
+    from harness.s2util import nest_at
+
+    with hx.Path("three_writers_nested") as P:
+        tx = hx.decide(txn)
+        w = world2.SWorld(name="nested3")
+        try:
+            wf, st = seed_stage(w, ntasks=0, status=WorkflowStatus.RUNNING)
+            set_cells(w, "stage_executions", st.id, version=v0)
+            stores = [w.store, second_store(w), second_store(w)]
+            local = [s_.retrieve_stage(st.id) for s_ in stores]
+            ok: list = [None, None, None]
+
+            def write(i: int) -> None:
+                s = local[i]
+                s.context["w%d" % i] = i + 10
+                try:
+                    if tx:
+                        with stores[i].transaction(w.queue) as t:
+                            t.store_stage(s)
+                    else:
+                        stores[i].store_stage(s)
+                    ok[i] = True
+                except ConcurrencyError:
+                    ok[i] = False
+                    stores[i]._get_connection().rollback()  # the rejected writer gives up its implicit transaction before anyone else writes
+
+            conn_b = stores[1]._get_connection()
+
+            def write_b() -> None:
+                stc = nest_at(conn_b, k2, lambda: write(2), max_k=8)
+                write(1)
+                conn_b.pre_statement = None
+                if not stc["done"]:
+                    write(2)
+
+            sta = nest_at(w.conn(), k, write_b, max_k=8)
+            write(0)
+            w.conn().pre_statement = None
+            if not sta["done"]:
+                write_b()
+            for c in (w.conn(), conn_b, stores[2]._get_connection()):
+                c.commit()
+            row = row_of(w, "stage_executions", st.id)
+            from vf import symdb
+
+            ctx = row["context"]
+            ctx = ctx.obj if isinstance(ctx, symdb.JText) else __import__("json").loads(ctx)
+            with hx.native():
+                P.reached((tx, sta["at"], tuple(ok)))
+                info = {"transactional": tx, "B_before_A_statement": sta["at"], "succeeded": ok, "context_keys": sorted(k_ for k_ in ctx if k_.startswith("w"))}
+            if sum(1 for x in ok if x) != 1:
+                return P.fail("C07/three_writers_nested/%s" % ("lost_update_several_saves_on_one_version_succeeded" if sum(1 for x in ok if x) > 1 else "all_rejected"), info)
+            for i in range(3):
+                if bool(ok[i]) != (("w%d" % i) in ctx):
+                    return P.fail("C07/three_writers_nested/%s" % ("committed_change_lost" if ok[i] else "rejected_change_visible"), info)
+            if row["version"] != v0 + 1:
+                return P.fail("C07/three_writers_nested/version_not_incremented_exactly_once", info)
+            return True
+        finally:
+            w.close()
+
+
 def retry_reloads(v0: int, bump: int) -> bool:
     """
     pre: 0 <= v0 <= 1000 and 1 <= bump <= 3
@@ -368,6 +437,7 @@ PLAN = [
     ("upsert_task_cas", "quick", 280),
     ("two_writers", "quick", 280),
     ("two_writers_nested", "quick", 280),
+    ("three_writers_nested", "quick", 280),
     ("retry_reloads", "quick", 120),
     ("store_stage_cas_allphases", "thorough", 1500),
 ]
